@@ -50,6 +50,15 @@ mod verif_standins {
                     assert!(RevocationPair::try_from(UncheckedRevocationPair { lock: p.lock, secret: UncheckedRevocationSecret { secret, index } }).is_ok(), "STANDIN RevocationPair::try_from(pair): matching pair refused");
                     let wrong = RevocationLock(p.lock.0 + Scalar::one());
                     assert!(RevocationPair::try_from(UncheckedRevocationPair { lock: wrong, secret: UncheckedRevocationSecret { secret, index } }).is_err(), "STANDIN RevocationPair::try_from(pair): a lock that is not the hash of the secret was accepted");
+                    // locks whose byte differences cancel under a fold (same mask in two bytes) are different locks too
+                    let mut lb = p.lock.0.to_bytes(); lb[0] ^= 0x5a; lb[7] ^= 0x5a;
+                    if let Some(l2) = Option::<Scalar>::from(Scalar::from_bytes(&lb)) {
+                        assert!(RevocationLock(l2) != p.lock, "STANDIN RevocationLock ==: two different locks compare equal");
+                        assert!(RevocationPair::try_from(UncheckedRevocationPair { lock: RevocationLock(l2), secret: UncheckedRevocationSecret { secret, index } }).is_err(), "STANDIN RevocationPair::try_from(pair): accepted a lock differing from the hash of the secret in two bytes");
+                    }
+                    // the decoded pair carries the hash of the secret, whatever lock was supplied
+                    let q = RevocationPair::try_from(UncheckedRevocationPair { lock: p.lock, secret: UncheckedRevocationSecret { secret, index } }).unwrap();
+                    assert_eq!(q.lock.0.to_bytes(), d, "STANDIN RevocationPair::try_from(pair): the pair's lock is not the hash of its secret");
                 } else {
                     if d[31] & 0x80 == 0 { seen_mid += 1; } else { seen_top += 1; }
                     assert!(r.is_err(), "STANDIN RevocationPair::try_from: secret {:?} index {} has the non-canonical digest {:02x?} (>= q) but was accepted: its lock cannot be the hash of its secret", secret, index, d);
